@@ -39,6 +39,12 @@ type boundedCfg struct {
 //   BOUNDED-VIOLATION <name> <json input>     (an input that violates the contract)
 func runBounded(repo, root, b, id, tier string, seed int, overlay map[string][]byte, findings []Finding, known *[]string) (map[string]any, []boundedViolation) {
 	info := map[string]any{"id": b, "bounded": true}
+	// "B-x:mode" runs the stand-in in a named mode (the part of its contract this property relies on)
+	mode := ""
+	if i := strings.IndexByte(b, ':'); i >= 0 {
+		b, mode = b[:i], b[i+1:]
+		info["mode"] = mode
+	}
 	data, err := os.ReadFile(filepath.Join(root, "bounded", b+".json"))
 	if err != nil {
 		info["status"] = "not built"
@@ -75,7 +81,7 @@ func runBounded(repo, root, b, id, tier string, seed int, overlay map[string][]b
 	cmd := exec.Command("go", "test", "-overlay", ovFile, "-vet=off", "-count=1", "-timeout", timeout, "-run", "^"+cfg.Test+"$", "-v", ".")
 	cmd.Dir = filepath.Join(repo, cfg.PkgDir)
 	cmd.Env = append(os.Environ(), "GOFLAGS=-mod=mod", "GOPROXY=off", "GOSUMDB=off", "GOTOOLCHAIN=local",
-		"VERIF_TIER="+tier, fmt.Sprintf("VERIF_SEED=%d", seed))
+		"VERIF_TIER="+tier, fmt.Sprintf("VERIF_SEED=%d", seed), "VERIF_BOUNDED_MODE="+mode)
 	var buf bytes.Buffer
 	cmd.Stdout = &buf
 	cmd.Stderr = &buf
